@@ -57,10 +57,15 @@ pub enum PeerMode {
     Absent,
     /// TCP: the SYN is never answered
     Blackhole,
+    /// unix: listening, but the accept queue is full until the peer accepts (an enumerated peer action)
+    BacklogFull,
+    /// a third process shares the application's descriptor and wins the race after a wake-up (outside the
+    /// statement's "two ends": recorded as an outcome class only)
+    Thief,
 }
 
 pub const PEERS: &[(PeerMode, &str)] =
-    &[(PeerMode::Ready, "ready"), (PeerMode::Late, "late"), (PeerMode::Absent, "absent"), (PeerMode::Blackhole, "blackhole")];
+    &[(PeerMode::Ready, "ready"), (PeerMode::Late, "late"), (PeerMode::Absent, "absent"), (PeerMode::Blackhole, "blackhole"), (PeerMode::BacklogFull, "backlog-full"), (PeerMode::Thief, "third-party")];
 
 /// `mode`: Write: 0 = `write_all(payload)`, c>0 = loop of `write(&rest[..c])`.
 /// Read: 0 = `read_to_end`, 1 = `read_exact(len)` (peer keeps the connection open), b>=2: loop of `read(&mut buf[..b-1])` until EOF.
@@ -238,6 +243,10 @@ unsafe fn judge_wait_err(op: &str, e: &Error, limit: Option<(u64, u64)>, wp: *mu
             "timeout".into()
         }
         ErrK::Os(libc::EINTR) => "eintr-surfaced".into(),
+        ErrK::Os(c) if c == libc::EAGAIN && (*wp).peer.stolen => {
+            // needs a third party on the same descriptor; the statement speaks of two ends: not judged
+            "lost-race-to-third-party:EAGAIN-surfaced(not judged)".into()
+        }
         ErrK::Os(c) if c == libc::EAGAIN || c == libc::EINPROGRESS || c == libc::EALREADY => {
             out.viol.push((
                 format!("C16:{op}:returned-before-peer-acted"),
@@ -247,7 +256,19 @@ unsafe fn judge_wait_err(op: &str, e: &Error, limit: Option<(u64, u64)>, wp: *mu
         }
         ErrK::Os(libc::ECONNREFUSED) => "refused".into(),
         ErrK::Os(c) => format!("err-{}", errno_name(c)),
-        ErrK::Other => "err-uncategorized".into(),
+        ErrK::Other => match limit {
+            Some((_, l)) if l == u64::MAX => "err-limit-above-i64-seconds(operation not attempted; not judged)".into(),
+            _ => "err-uncategorized".into(),
+        },
+    }
+}
+
+/// u64::MAX stands for Duration::MAX (more than i64::MAX seconds)
+fn dur(ns: u64) -> Duration {
+    if ns == u64::MAX {
+        Duration::MAX
+    } else {
+        Duration::from_nanos(ns)
     }
 }
 
@@ -464,7 +485,8 @@ pub unsafe fn app(case: &Case, wp: *mut World) -> AppOut {
                 }
             };
             let with_to = case.scen == Scen::ReadTimeout;
-            if case.peer == PeerMode::Ready {
+            (*wp).peer.thief = case.peer == PeerMode::Thief;
+            if matches!(case.peer, PeerMode::Ready | PeerMode::Thief) {
                 (*wp).peer.to_write = payload(case.len);
                 (*wp).peer.close_after = case.mode != 1;
             }
@@ -510,7 +532,7 @@ pub unsafe fn app(case: &Case, wp: *mut World) -> AppOut {
                     loop {
                         let t0 = (*wp).clock;
                         let r = match (&mut s, case.timeout) {
-                            (AnyStream::T(t), Some(to)) if with_to => t.read_with_timeout(&mut buf, Duration::from_nanos(to)),
+                            (AnyStream::T(t), Some(to)) if with_to => t.read_with_timeout(&mut buf, dur(to)),
                             (s, _) => s.read(&mut buf),
                         };
                         match r {
@@ -554,12 +576,13 @@ pub unsafe fn app(case: &Case, wp: *mut World) -> AppOut {
         }
         Scen::Accept | Scen::TryAccept | Scen::AcceptTimeout => {
             let Some(mut l) = bind_listener(case.fam, wp, &mut out) else { return out };
-            (*wp).peer.connects_left = (case.peer == PeerMode::Ready) as u32;
+            (*wp).peer.connects_left = matches!(case.peer, PeerMode::Ready | PeerMode::Thief) as u32;
+            (*wp).peer.thief = case.peer == PeerMode::Thief;
             reset_counters(wp);
             (*wp).set_op(&op, true);
             (*wp).set_phase(Phase::Measured);
             let t0 = (*wp).clock;
-            let to = Duration::from_nanos(case.timeout.unwrap_or(0));
+            let to = dur(case.timeout.unwrap_or(0));
             let res: Result<Option<AnyStream>, Error> = match (&mut l, case.scen) {
                 (AnyListener::U(l), Scen::Accept) => l.accept().map(|s| Some(AnyStream::U(s))),
                 (AnyListener::U(l), Scen::TryAccept) => l.try_accept().map(|o| o.map(AnyStream::U)),
@@ -609,12 +632,17 @@ pub unsafe fn app(case: &Case, wp: *mut World) -> AppOut {
                 PeerMode::Late => (*wp).peer.will_listen = true,
                 PeerMode::Absent => {}
                 PeerMode::Blackhole => (*wp).peer.blackhole = true,
+                PeerMode::BacklogFull => {
+                    (*wp).peer.listening = true;
+                    (*wp).peer.backlog_full = true;
+                }
+                PeerMode::Thief => (*wp).peer.listening = true,
             }
             reset_counters(wp);
             (*wp).set_op(&op, true);
             (*wp).set_phase(Phase::Measured);
             let t0 = (*wp).clock;
-            let to = Duration::from_nanos(case.timeout.unwrap_or(0));
+            let to = dur(case.timeout.unwrap_or(0));
             // which operation created the socket of the stream that comes back
             let made_by = if case.fam == Fam::Tcp && matches!(case.scen, Scen::TryConnect | Scen::InProgTry | Scen::InProgBlocking) {
                 "TcpStream::try_connect".to_string()
@@ -698,6 +726,18 @@ pub unsafe fn app(case: &Case, wp: *mut World) -> AppOut {
                     } else {
                         let lim = if case.scen == Scen::ConnectTimeout { case.timeout.map(|l| (t0, l)) } else { None };
                         out.result = judge_wait_err(&op, &e, lim, wp, &mut out);
+                        if case.peer == PeerMode::BacklogFull {
+                            for v in out.viol.iter_mut() {
+                                if v.0.ends_with(":returned-before-peer-acted") {
+                                    v.0 = format!("C16:{op}:fails-with-would-block-while-peer-has-not-accepted-yet");
+                                    v.1 = format!(
+                                        "{op} is the blocking variant: the listener's accept queue is full, the non-blocking connect answers EAGAIN, ppoll(POLLOUT) on the \
+                                         unconnected socket is ready at once, the single retry answers EAGAIN again and that is returned — although the peer accepts later \
+                                         (the call must complete when the peer acts)"
+                                    );
+                                }
+                            }
+                        }
                     }
                 }
             }
@@ -829,7 +869,7 @@ pub unsafe fn app(case: &Case, wp: *mut World) -> AppOut {
                     (*wp).set_op(&op, true);
                     let t0 = (*wp).clock;
                     let r = match &mut s {
-                        AnyStream::T(ts) => ts.read_with_timeout(&mut buf, Duration::from_nanos(t)),
+                        AnyStream::T(ts) => ts.read_with_timeout(&mut buf, dur(t)),
                         AnyStream::U(us) => us.read(&mut buf),
                     };
                     match r {
@@ -972,7 +1012,7 @@ pub fn run_exec(case: &Case, prefix: &[u8], menu: Menu) -> Exec {
                 if let Some(got) = &out.got {
                     let written = &w.peer.to_write[..w.peer.written.min(w.peer.to_write.len())];
                     if out.got_complete {
-                        let want: &[u8] = if case.peer == PeerMode::Ready { &pl } else { &[] };
+                        let want: &[u8] = if matches!(case.peer, PeerMode::Ready | PeerMode::Thief) { &pl } else { &[] };
                         if let Some(kind) = classify_stream(want, got) {
                             viol.push((
                                 format!("C16:{op}:{kind}"),
